@@ -449,3 +449,100 @@ Proof.
     rewrite R. pose proof (step_queries c s (OTake p t)). lia.
   - constructor; auto. induction n as [|n IH]; cbn; constructor; auto.
 Qed.
+
+(* ------------------------------------------------------------------ entries are well typed *)
+(* primary keys hold rows or the placeholder, index keys hold primary keys or the
+   placeholder: the [RIllTyped] answers of the model are unreachable *)
+Definition typed_entry (k : key) (v : cval) : Prop :=
+  match k, v with
+  | KP _, CPk _ | KU _, CRow _ _ => False
+  | _, _ => True
+  end.
+
+Definition well_typed (d : store) : Prop := forall k e, find k d = Some e -> typed_entry k (eval e).
+
+Lemma typed_put k e d : well_typed d -> typed_entry k (eval e) -> well_typed (put k e d).
+Proof.
+  intros W T k' e' H. destruct (key_eqb k' k) eqn:E.
+  - apply key_eqb_eq in E. subst. rewrite find_put_same in H. inversion H. subst. exact T.
+  - rewrite find_put_other in H by exact E. apply W. exact H.
+Qed.
+
+Lemma typed_sub d d' : well_typed d -> (forall k e, find k d' = Some e -> find k d = Some e) -> well_typed d'.
+Proof. intros W S k e H. apply W. apply S. exact H. Qed.
+
+Lemma take_primary_typed c s p t : well_typed (cache s) -> well_typed (cache (fst (take_primary c s p t))).
+Proof.
+  intro W. unfold take_primary.
+  destruct (key_down c s (KP p)); auto.
+  destruct (lookup (clock s) (cache s) (KP p)) as [[[u v|q|] x]|]; auto.
+  destruct (dbFault s); auto.
+  destruct (db_get p (db s)) as [[u v]|].
+  - destruct (ttl_ok (expiry_of c) t); auto. cbn [fst set_cache cache]. apply typed_put; cbn; auto.
+  - destruct (ttl_ok (nf_of c) t); auto. cbn [fst set_cache cache]. apply typed_put; cbn; auto.
+Qed.
+
+Lemma step_typed c s o : well_typed (cache s) -> well_typed (cache (fst (step c s o))).
+Proof.
+  intro W. destruct o; cbn [step].
+  - apply take_primary_typed; auto.
+  - unfold query_index.
+    destruct (key_down c s (KU u)); auto.
+    destruct (lookup (clock s) (cache s) (KU u)) as [[[a b|q|] x]|]; auto.
+    + apply take_primary_typed; auto.
+    + destruct (dbFault s); auto.
+      destruct (db_by_u u (db s)) as [[p [u' v]]|].
+      * destruct (key_down c s (KP p)); auto.
+        destruct (ttl_ok (expiry_of c) t); auto. cbn [fst set_cache cache].
+        apply typed_put; [apply typed_put|]; cbn; auto.
+      * destruct (ttl_ok (nf_of c) t); auto. cbn [fst set_cache cache]. apply typed_put; cbn; auto.
+  - unfold get_primary. destruct (key_down c s (KP p)); auto.
+    destruct (lookup (clock s) (cache s) (KP p)) as [[[a b|q|] x]|]; auto.
+  - unfold exec. destruct (dbFault s); auto. destruct w as [[u v]|].
+    + destruct (u_taken p u (db s)); auto. cbn [fst]. eapply typed_sub; [exact W|].
+      intros k e H. apply del_keys_sub in H. exact H.
+    + cbn [fst]. eapply typed_sub; [exact W|]. intros k e H. apply del_keys_sub in H. exact H.
+  - destruct (key_down c s (KP p)) eqn:K; auto. destruct (ttl_ok (expiry_of c) t); auto.
+    unfold set_primary. rewrite K. cbn [fst set_cache cache]. apply typed_put; cbn; auto.
+  - unfold set_primary. destruct (key_down c s (KP p)); auto.
+    cbn [fst set_cache cache]. apply typed_put; cbn; auto.
+  - cbn [fst]. eapply typed_sub; [exact W|]. intros k e H. apply del_keys_sub in H. exact H.
+  - exact W.
+  - exact W.
+  - exact W.
+  - cbn [fst]. eapply typed_sub; [exact W|]. apply iter_tick_sub.
+Qed.
+
+Lemma final_typed c ops : forall s, well_typed (cache s) -> well_typed (cache (final c s ops)).
+Proof.
+  induction ops as [|o ops IH]; cbn; intros s W; auto. apply IH. apply step_typed. exact W.
+Qed.
+
+Lemma never_ill_typed_lemma c rows ops o :
+  oret (snd (step c (final c (init rows) ops) o)) <> RIllTyped.
+Proof.
+  assert (W : well_typed (cache (final c (init rows) ops))).
+  { apply final_typed. intros k e H. cbn in H. discriminate. }
+  set (s := final c (init rows) ops) in *.
+  assert (T : forall p t, oret (snd (take_primary c s p t)) <> RIllTyped).
+  { intros p t. unfold take_primary.
+    destruct (key_down c s (KP p)); [cbn; discriminate|].
+    destruct (lookup (clock s) (cache s) (KP p)) as [[[a b|q|] x]|] eqn:L; try (cbn; discriminate).
+    - apply lookup_some in L. destruct L as [L _]. apply W in L. cbn in L. contradiction.
+    - split_step; cbn; discriminate. }
+  destruct o; cbn [step]; try (cbn; discriminate).
+  - apply T.
+  - unfold query_index.
+    destruct (key_down c s (KU u)); [cbn; discriminate|].
+    destruct (lookup (clock s) (cache s) (KU u)) as [[[a b|q|] x]|] eqn:L; try (cbn; discriminate).
+    + apply lookup_some in L. destruct L as [L _]. apply W in L. cbn in L. contradiction.
+    + apply T.
+    + split_step; cbn; discriminate.
+  - unfold get_primary.
+    destruct (key_down c s (KP p)); [cbn; discriminate|].
+    destruct (lookup (clock s) (cache s) (KP p)) as [[[a b|q|] x]|] eqn:L; try (cbn; discriminate).
+    apply lookup_some in L. destruct L as [L _]. apply W in L. cbn in L. contradiction.
+  - unfold exec. split_step; cbn; discriminate.
+  - unfold set_primary. split_step; cbn; discriminate.
+  - unfold set_primary. split_step; cbn; discriminate.
+Qed.
